@@ -68,6 +68,38 @@ type freshFunc struct {
 // freshFunctions lists the unexported functions and methods with bodies that the reference table lacks.
 func freshFunctions(ref symTable, cfg string, pkgs map[string]*packages.Package) []freshFunc {
 	var out []freshFunc
+	// a reference function or method that is gone, and a new one of the same name with another home (a function that
+	// became a method, a method moved to another receiver): the same code re-homed, not an extracted helper
+	curKeys := map[string]bool{}
+	for path, pk := range pkgs {
+		if !strings.HasPrefix(path, pkgSftp) || pk.TypesInfo == nil {
+			continue
+		}
+		for _, f := range pk.Syntax {
+			for _, d := range f.Decls {
+				if fd, ok := d.(*ast.FuncDecl); ok {
+					key := path + "|" + fd.Name.Name
+					if fd.Recv != nil && len(fd.Recv.List) == 1 {
+						t := fd.Recv.List[0].Type
+						if st, ok := t.(*ast.StarExpr); ok {
+							t = st.X
+						}
+						if id, ok := t.(*ast.Ident); ok {
+							key = path + "|" + id.Name + "." + fd.Name.Name
+						}
+					}
+					curKeys[key] = true
+				}
+			}
+		}
+	}
+	rehomed := map[string]bool{} // pkg|shortname
+	for k, e := range ref {
+		if (e.Kind == "func" || e.Kind == "method") && hasCfg(e, cfg) && !curKeys[k] {
+			pkgPath, _, name := splitKey(k)
+			rehomed[pkgPath+"|"+name] = true
+		}
+	}
 	for path, pk := range pkgs {
 		if !strings.HasPrefix(path, pkgSftp) || strings.Contains(path, "/examples/") || strings.HasSuffix(path, "/server_standalone") || pk.TypesInfo == nil {
 			continue
@@ -98,6 +130,9 @@ func freshFunctions(ref symTable, cfg string, pkgs map[string]*packages.Package)
 					key = path + "|" + id.Name + "." + fd.Name.Name
 				}
 				if e := ref[key]; e != nil && hasCfg(e, cfg) {
+					continue
+				}
+				if rehomed[path+"|"+fd.Name.Name] {
 					continue
 				}
 				// a method that satisfies an interface of the module is not a helper
